@@ -56,6 +56,9 @@ def tu_list(parts):
         for o in ORDERS:
             for d in OPT_DIMS:
                 tus.append((f'opt_{o}_{d}', 'opt_tu.cpp', [f'-DH_ORDER={o}', f'-DH_DIM={d}']))
+    if 'opt_min' in parts:          # reduced optimizer set (ThreadSanitizer variant)
+        for o, d in ((5, 2), (3, 1)):
+            tus.append((f'opt_{o}_{d}', 'opt_tu.cpp', [f'-DH_ORDER={o}', f'-DH_DIM={d}']))
     return tus
 
 
